@@ -191,6 +191,9 @@ preempt!(c02_same_term_b_after_a_claims, 64, 17, 20, -1, 4);
 preempt!(c02_same_term_b_before_a_commits, 64, 17, 20, -1, 8);
 // @verif tier=thorough unwind=4 unwindset=payload_eq:34 fs=6000 timeout=1500
 preempt!(c02_same_term_b_before_a_reads_limit, 64, 17, 20, -1, 0);
+// A's message is fragmented and an exact multiple of the MTU payload: the claim must not be larger than what is written (gap-free)
+// @verif tier=quick unwind=4 unwindset=payload_eq:34 fs=6000 timeout=1500
+preempt!(c02_same_term_fragmented_exact_multiple, 64, 64, 20, -1, 4);
 // B trips the term end and rotates (then retries in the new term) while A holds a stale view of the term
 // @verif tier=quick unwind=4 unwindset=payload_eq:34 fs=6000 timeout=1500
 preempt!(c02_b_rotates_before_a_claims, 448, 17, 40, 40, 3);
